@@ -172,13 +172,36 @@ func ivalAbuse(text string, lists []interval.IntervalList) {
 			quietly(func() { bad.Normalize() })
 			quietly(func() { _ = bad.String() })
 			quietly(func() { bad.Humanize() })
-			quietly(func() { bad.Extract() })
+			// Extract lists every integer an interval covers: only for lists that cover few (its cost on a span of
+			// 10^18 is a resource question the properties say nothing about)
+			if spanOf(bad) < 100000 {
+				quietly(func() { bad.Extract() })
+			}
 			quietly(func() { interval.IntersectionOfSomeIntervalLists(cloneIvs(l), bad) })
 			quietly(func() { interval.IntersectionOfSomeIntervalLists(bad, cloneIvs(l)) })
 			quietly(func() { cloneIvs(l).Intersection(bad) })
 			quietly(func() { interval.IntersectionOfSomeIntervalLists(cloneIvs(l), cloneIvs(l), bad) })
 		}
 	}
+}
+
+// spanOf: the number of integers the intervals of a list cover at most (saturating)
+func spanOf(l interval.IntervalList) int64 {
+	var n int64
+	for _, iv := range l {
+		if iv == nil {
+			continue
+		}
+		d := iv.End - iv.Start
+		if iv.End < iv.Start {
+			d = iv.Start - iv.End
+		}
+		if d < 0 || d > 1<<40 || n > 1<<40 {
+			return 1 << 41
+		}
+		n += d + 1
+	}
+	return n
 }
 
 func zoneAbuse(loc *time.Location, jd int, variant int) {
